@@ -22,6 +22,7 @@ import (
 	"time"
 
 	"github.com/caddyserver/caddy/v2"
+	"github.com/caddyserver/caddy/v2/modules/caddyhttp/reverseproxy"
 )
 
 const (
@@ -33,7 +34,9 @@ const (
 	opRng = 'G' // Range
 	// client operations (`writers` lines): the real Logging.openWriter / closeLogs
 	opOpen  = 'O' // openWriter(key), OpenWriter succeeds (ok) or fails
-	opClose = 'c' // closeLogs: Delete every remembered key, oldest first
+	opClose = 'c' // closeLogs / Cleanup: Delete every remembered key, oldest first
+	opLSP   = 'Z' // LoadOrStore of a value that is not a Destructor
+	opProv  = 'P' // `hosts` lines: Handler.provisionUpstream (fillHost → LoadOrStore of a *Host)
 )
 
 type op struct {
@@ -64,10 +67,14 @@ func (o op) String() string {
 
 // val is every value stored in the pool; all values are Destructors.
 type val struct {
-	id  int
-	key int
-	c   *controller
+	id    int
+	key   int
+	c     *controller
+	plain bool // stored in a form that is not a Destructor (pval, *Host)
 }
+
+// pval is a pool value that is NOT a Destructor.
+type pval struct{ v *val }
 
 // probeWriter is the io.WriteCloser a probe WriterOpener hands to Logging.openWriter; the pool
 // stores it wrapped in caddy's writerDestructor, whose Destruct calls Close.
@@ -166,6 +173,8 @@ type thread struct {
 	lsObj  *val // … and the value object
 	// client mode
 	logging      *caddy.Logging
+	handler      *reverseproxy.Handler
+	provisioned  int // upstreams of handler provisioned so far
 	closeDeletes int // closeLogs in progress: Deletes entered so far
 	closeKey     int // … key of the Delete in progress
 	cl           closeState
@@ -181,18 +190,26 @@ const (
 	clDtor                    // inside the destructor
 )
 
+const (
+	modePlain   = iota // `sched`: a private pool
+	modeWriters        // `writers`: caddy's writers pool through Logging.openWriter / closeLogs
+	modeHosts          // `hosts`: the reverse proxy's hosts pool through provisionUpstream / Cleanup
+)
+
 type controller struct {
-	client  bool // `writers` line: the pool is caddy's writers pool, keys are strings unique to the case
-	caseNo  uint64
-	up      *caddy.UsagePool
-	nk      int
-	threads []*thread
-	current *thread
-	evt     chan msg
-	dead    chan struct{}
-	nextVal int
-	wg      sync.WaitGroup
-	hung    bool
+	mode     int
+	hostVals map[*reverseproxy.Host]*val
+	client   bool // a client line: the pool is a global one, keys are strings unique to the case
+	caseNo   uint64
+	up       *caddy.UsagePool
+	nk       int
+	threads  []*thread
+	current  *thread
+	evt      chan msg
+	dead     chan struct{}
+	nextVal  int
+	wg       sync.WaitGroup
+	hung     bool
 }
 
 var active atomic.Pointer[controller]
@@ -294,6 +311,17 @@ func asVal(x any) (*val, bool) {
 	if x == nil {
 		return nil, false
 	}
+	if p, ok := x.(*pval); ok {
+		return p.v, false
+	}
+	if h, ok := x.(*reverseproxy.Host); ok {
+		if c := active.Load(); c != nil {
+			if v := c.hostVals[h]; v != nil {
+				return v, false
+			}
+		}
+		return nil, true
+	}
 	v, ok := x.(*val)
 	return v, !ok
 }
@@ -327,6 +355,29 @@ func (t *thread) exec(o op, k cmd) (r ret) {
 			deleted, err := c.up.Delete(o.key)
 			r.deleted, r.err = deleted, err != nil
 		}()
+	case opLSP:
+		t.lsObj = &val{id: k.valID, key: o.key, c: c, plain: true}
+		x, loaded := c.up.LoadOrStore(o.key, &pval{t.lsObj})
+		r.v, r.badType = asVal(x)
+		r.loaded = loaded
+	case opProv:
+		// the real client glue: provisionUpstream → fillHost → hosts.LoadOrStore(u.String(), new(Host))
+		u := t.handler.Upstreams[t.provisioned]
+		t.provisioned++
+		t.handler.VerifProvision(u)
+		if u.Host == nil {
+			r.badType = true
+			break
+		}
+		v := c.hostVals[u.Host]
+		if v == nil {
+			// a Host nobody has seen yet: the one this call created
+			v = &val{id: k.valID, key: o.key, c: c, plain: true}
+			c.hostVals[u.Host] = v
+		} else {
+			r.loaded = true
+		}
+		r.v = v
 	case opOpen:
 		w, isNew, err := t.logging.VerifOpenWriter(&probeOpener{t: t, key: o.key, ok: o.ok})
 		r.err = err != nil
@@ -346,7 +397,11 @@ func (t *thread) exec(o op, k cmd) (r ret) {
 					r.panic = true
 				}
 			}()
-			r.err = t.logging.VerifCloseLogs() != nil
+			if c.mode == modeHosts {
+				r.err = t.handler.Cleanup() != nil
+			} else {
+				r.err = t.logging.VerifCloseLogs() != nil
+			}
 		}()
 	case opRef:
 		r.n, r.present = c.up.References(o.key)
@@ -362,14 +417,29 @@ func (t *thread) exec(o op, k cmd) (r ret) {
 	return r
 }
 
-func newController(nk int, progs [][]op, client bool) *controller {
+func newController(nk int, progs [][]op, mode int) *controller {
 	c := &controller{up: caddy.NewUsagePool(), nk: nk, evt: make(chan msg), dead: make(chan struct{}), nextVal: 1,
-		client: client, caseNo: caseCounter.Add(1)}
-	if client {
+		mode: mode, client: mode != modePlain, caseNo: caseCounter.Add(1), hostVals: map[*reverseproxy.Host]*val{}}
+	switch mode {
+	case modeWriters:
 		c.up = caddy.VerifWritersPool()
+	case modeHosts:
+		c.up = reverseproxy.VerifHostsPool()
 	}
 	for i, p := range progs {
 		t := &thread{id: i, c: c, prog: p, resume: make(chan cmd), logging: &caddy.Logging{}}
+		if mode == modeHosts {
+			// the handler's configured upstreams: one per P operation, plus one that is never
+			// provisioned (Cleanup must leave it alone; its address is key 0's)
+			var ups reverseproxy.UpstreamPool
+			for _, o := range p {
+				if o.kind == opProv {
+					ups = append(ups, &reverseproxy.Upstream{Dial: c.key(o.key).(string)})
+				}
+			}
+			ups = append(ups, &reverseproxy.Upstream{Dial: c.key(0).(string)})
+			t.handler = reverseproxy.VerifPoolHandler(ups)
+		}
 		c.threads = append(c.threads, t)
 	}
 	active.Store(c)
@@ -448,7 +518,7 @@ func (c *controller) enabled(t *thread) bool {
 	}
 	if !t.inOp {
 		switch t.prog[t.pc].kind {
-		case opLN, opLS, opDel, opCD, opOpen, opClose: // (a skipped conditional Delete is handled by the caller)
+		case opLN, opLS, opDel, opCD, opOpen, opClose, opLSP, opProv: // (a skipped conditional Delete is handled by the caller)
 			return tryW(&c.up.RWMutex)
 		default:
 			return tryR(&c.up.RWMutex)
@@ -556,8 +626,9 @@ func (c *controller) turn(t *thread, holds holdsFn, oldest func(t int) (int, boo
 	first := !t.inOp
 	// LoadOrStore starting over after the loaded entry's constructor failed: the same value
 	// object goes into the new attempt under a fresh number (value numbers name attempts)
-	restart := t.inOp && o.kind == opLS && t.at == mYield && t.atPt == pointLoadOrStoreRetry
-	if (first || restart) && o.kind == opLS {
+	isLS := o.kind == opLS || o.kind == opLSP || o.kind == opProv
+	restart := t.inOp && isLS && t.at == mYield && t.atPt == pointLoadOrStoreRetry
+	if (first || restart) && isLS {
 		k.valID = c.nextVal
 		c.nextVal++
 		t.lsVal = k.valID
@@ -666,7 +737,7 @@ func (c *controller) turn(t *thread, holds holdsFn, oldest func(t int) (int, boo
 		default:
 			res.tok = unexpected()
 		}
-	case o.kind == opLS && (first || restart):
+	case isLS && (first || restart):
 		switch {
 		case m.kind == mRet && !r.loaded:
 			res.tok = "Ss" + valStr(r.v)
@@ -675,7 +746,7 @@ func (c *controller) turn(t *thread, holds holdsFn, oldest func(t int) (int, boo
 		default:
 			res.tok = unexpected()
 		}
-	case o.kind == opLS:
+	case isLS:
 		switch {
 		case m.kind == mRet && r.loaded:
 			res.tok = "L" + valStr(r.v)
